@@ -1018,8 +1018,7 @@ func HandleStore(deps ServerDeps, conn net.Conn, tag string, parts []string, sta
 
 		// Update flags in database (only if message wasn't moved)
 		// Address the link by its UID: the same message can be in this mailbox more than once (COPY into itself)
-		updateQuery := "UPDATE message_mailbox SET flags = ? WHERE mailbox_id = ? AND uid = ?"
-		_, err = userDB.Exec(updateQuery, updatedFlags, state.SelectedMailboxID, uid)
+		updatedFlags, err = ApplyFlagChange(userDB, state.SelectedMailboxID, uid, currentFlags, newFlags, dataItem)
 		if err != nil {
 			log.Printf("Failed to update flags for message %d: %v", messageID, err)
 			continue
@@ -1036,6 +1035,30 @@ func HandleStore(deps ServerDeps, conn net.Conn, tag string, parts []string, sta
 	}
 
 	deps.SendResponse(conn, fmt.Sprintf("%s OK STORE completed", tag))
+}
+
+// ApplyFlagChange writes the outcome of a STORE data item for one message (addressed by mailbox and UID). The flags are
+// read, the new value is computed and written back; the write is conditional on the flags still being what was read, and
+// the computation is repeated on the current value when another session changed them in between. Without the condition two
+// sessions storing at the same time are both answered OK and one of the changes is lost.
+func ApplyFlagChange(database *sql.DB, mailboxID, uid int64, currentFlags string, newFlags []string, dataItem string) (string, error) {
+	for attempt := 0; ; attempt++ {
+		updated := CalculateNewFlags(currentFlags, newFlags, dataItem)
+		res, err := database.Exec("UPDATE message_mailbox SET flags = ? WHERE mailbox_id = ? AND uid = ? AND flags = ?",
+			updated, mailboxID, uid, currentFlags)
+		if err != nil {
+			return "", err
+		}
+		if n, _ := res.RowsAffected(); n > 0 {
+			return updated, nil
+		}
+		if attempt >= 20 {
+			return "", fmt.Errorf("flags of UID %d keep changing", uid)
+		}
+		if err := database.QueryRow("SELECT flags FROM message_mailbox WHERE mailbox_id = ? AND uid = ?", mailboxID, uid).Scan(&currentFlags); err != nil {
+			return "", err
+		}
+	}
 }
 
 // parseFlagsToSet converts a space-separated flags string into a set (map)
